@@ -396,7 +396,7 @@ pub fn run(ctx: &Ctx) -> Report {
         rep.merge(fam);
     }
     // s-expressions
-    let k = ctx.tier.pick(2, 3);
+    let k = 3;
     let mut ex = exprs_up_to(k, 3);
     ctx.rotate(&mut ex);
     let chunks: Vec<&[Ex]> = ex.chunks(512).collect();
